@@ -29,7 +29,7 @@ from mc.drivers import files_io as F
 
 ID = "C19"
 LEVEL = "exploration"
-BUDGET = {"quick": 150, "thorough": 900}
+BUDGET = {"quick": 240, "thorough": 1200}
 CHUNK = 4
 RULE = (
     "one case = one accepted configuration (pipeline skeleton x confidence set x invalid_disparity x disparity form x "
@@ -53,9 +53,9 @@ ASSUMPTIONS = [
     "in the transform origin",
     "only built-in methods (no optimization / semantic_segmentation plug-in exists in this image); multiscale only "
     "with an integer interval (documented restriction)",
-    "two-band pairs only with subpix 1 and without cbca: on this tree pandora.main raises on accepted two-band "
-    "configurations with subpix > 1 (sad/ssd/zncc: AttributeError band_im) or with cbca (2-D image assumed); those "
-    "crashes are about band handling, not about saving, and are reported to the lead separately",
+    "two-band pairs (thorough) never with cbca: pandora.main raises on accepted two-band configurations with cbca "
+    "(aggregation assumes a 2-D image); that crash is about band handling, not about saving, and was reported to the "
+    "lead separately",
     "images hold the matching window at every scale (a 6x8 pair with windows <= 3, a 10x12 pair with window 5)",
     "loadable JSON = loads with Pandora's own reader (python json, which accepts the NaN literal)",
 ]
@@ -140,7 +140,7 @@ def _cases(tier, seed, level):
                                 for mc in MATCHING:
                                     yield dict(base, mc=mc, shape=[6, 8], bands=1)
                                 if sk != "cbca-bilateral":
-                                    yield dict(base, mc=["sad3", "census3"][k % 2], shape=[5, 7], bands=2)
+                                    yield dict(base, mc=list(MATCHING)[(k + 1) % len(MATCHING)], shape=[5, 7], bands=2)
                                 yield dict(base, mc=list(MATCHING_BIG)[k % len(MATCHING_BIG)], shape=[10, 12], bands=1)
 
 
